@@ -1220,6 +1220,50 @@ def probe_step_longer():
     return None
 
 
+def conv_mixed_dtype_cases(only=None):
+    """conv_nd / max_pool on operands of *different* dtypes (integer or low-precision data with real-valued filters):
+    the documented sum over the placement, evaluated on the exact values of both operands, in NumPy's result dtype.
+    -> [(name, message)]"""
+    out = []
+    pairs = [("int64", "float64"), ("uint8", "float64"), ("int32", "float32"), ("float32", "float64"), ("float16", "float32"),
+             ("float64", "float32"), ("bool", "float64"), ("int8", "float64")]
+    rng = random.Random("c16-mixed")
+    for xd, wd in pairs:
+        for nd in (1, 2):
+            name = f"conv:{xd}*{wd}:{nd}d"
+            if only is not None and name != only:
+                continue
+            X = (5,) if nd == 1 else (4, 4)
+            K = (3,) if nd == 1 else (2, 2)
+            xs, ws = (2, 2) + X, (3, 2) + K
+            if xd == "bool":
+                xv = np.array([rng.random() < 0.5 for _ in range(int(np.prod(xs)))]).reshape(xs)
+            elif xd.startswith("uint"):
+                xv = np.array([rng.randint(0, 250) for _ in range(int(np.prod(xs)))]).reshape(xs).astype(xd)
+            elif xd.startswith("int"):
+                xv = np.array([rng.randint(-9, 9) for _ in range(int(np.prod(xs)))]).reshape(xs).astype(xd)
+            else:
+                xv = np.array([rng.uniform(-3, 3) for _ in range(int(np.prod(xs)))]).reshape(xs).astype(xd)
+            wv = np.array([rng.choice([-1.75, -0.25, 0.25, 0.5, 1.3, -2.6]) for _ in range(int(np.prod(ws)))]).reshape(ws).astype(wd)
+            try:
+                got = conv_nd(xv, wv, stride=1).data
+            except Exception as e:  # noqa: BLE001
+                out.append((name, f"raised {type(e).__name__}: {str(e)[:80]}"))
+                continue
+            exp, mag, _xp, _G = conv_naive(xv.astype(np.float64), wv.astype(np.float64), [1] * nd, [0] * nd, [1] * nd)
+            rdt = np.result_type(xv.dtype, wv.dtype)
+            eps = float(np.finfo(rdt).eps) if np.issubdtype(rdt, np.floating) else 0.0
+            if got.shape != exp.shape:
+                out.append((name, f"shape {got.shape}, expected {exp.shape}"))
+            elif got.dtype != rdt:
+                out.append((name, f"result dtype {got.dtype}, NumPy's result type of the two operands is {rdt}"))
+            elif not np.all(np.abs(got.astype(np.float64) - exp) <= 8 * eps * np.maximum(mag, 1.0) + 1e-300):
+                k = np.unravel_index(np.argmax(np.abs(got.astype(np.float64) - exp)), exp.shape)
+                out.append((name, f"out{tuple(int(i) for i in k)} = {got[k]!r}, the documented sum gives {exp[k]!r} "
+                            f"(data {xd}, filters {wd})"))
+    return out
+
+
 def probe_malformed(rng):
     """argument errors outside the per-axis model: must be rejected (any exception) or stay in bounds"""
     fails = []
@@ -1429,6 +1473,12 @@ def run(ctx: Ctx) -> Outcome:
         out.violations.append(Violation(f"C16|malformed-argument-accepted|{name}", f"{name}: {detail}",
                                         {"kind": "probe", "probe": "malformed", "name": name}))
 
+    for name, detail in conv_mixed_dtype_cases():
+        out.violations.append(Violation(f"C16|mixed-dtype|{name}", f"{name}: {detail}", {"kind": "probe", "probe": "mixed", "name": name}))
+    out.evaluations += 16
+    for k in range(16):
+        out.nontrivial.add(stable_hash(["conv-mixed", k]))
+
     # ---- float layers (tolerance comparison — the part the proofs do not reach)
     lhist = {}
     for r in fres:
@@ -1476,6 +1526,10 @@ def replay(data) -> bool:
             msg = probe_step_longer()
             print(msg or "not reproduced")
             return bool(msg)
+        if r["probe"] == "mixed":
+            fl = conv_mixed_dtype_cases(only=r.get("name"))
+            print(fl or "not reproduced")
+            return bool(fl)
         fl = [f for f in probe_malformed(random.Random(0)) if f[0] == r.get("name")]
         print(fl or "not reproduced")
         return bool(fl)
